@@ -33,7 +33,7 @@ cfg("gen_core_q", ["Emit"], MaxOff=5)
 cfg("gen_core_t", ["Emit"], MaxOff=6, MaxSets=3, Versions="{1, 2}", OptKeep="TF", AllowRmIndex="TRUE")
 # keys: C09
 cfg("seg_keys_q", STRUCT + ["GetByKeyInv", "ConsumeByKeyInv"], KeySet="mcKeys3", VLens="{0, 4}", MaxOff=4, KeyIndex="TRUE", Rollovers="{60, 1000}")
-cfg("seg_keys_t", STRUCT + ["GetByKeyInv", "ConsumeByKeyInv"], KeySet="mcKeys4", VLens="{0, 4}", MaxOff=5, KeyIndex="TRUE", Rollovers="{60, 1000}", AllowRO="TRUE")
+cfg("seg_keys_t", STRUCT + ["GetByKeyInv", "ConsumeByKeyInv"], KeySet="mcKeys3", VLens="{0, 4}", MaxOff=5, KeyIndex="TRUE", Rollovers="{60, 1000}", AllowRO="TRUE")
 cfg("gen_keys_q", ["Emit"], KeySet="mcKeys3", MaxOff=3, KeyIndex="TRUE", Rollovers="{60, 1000}", MaxBatch=2)
 cfg("gen_keys_t", ["Emit"], KeySet="mcKeys3", VLens="{0, 4}", MaxOff=4, KeyIndex="TRUE", Rollovers="{60, 1000}")
 # times: C10
